@@ -14,18 +14,18 @@ import (
 )
 
 type Obligation struct {
-	Name    string
-	Kind    string // requires ensures invariant bounds nil frame lemma cover assert ...
-	Func    string
-	Hyps    []*Term
-	Goal    *Term // nil for cover queries (expect sat)
-	Pos     string
-	Note    string
-	Verdict string // unsat sat unknown timeout trivial error
-	Solver  string
-	Secs    float64
-	Output  string
-	Cover   bool
+	Name      string
+	Kind      string // requires ensures invariant bounds nil frame lemma cover assert ...
+	Func      string
+	Hyps      []*Term
+	Goal      *Term // nil for cover queries (expect sat)
+	Pos       string
+	Note      string
+	Verdict   string // unsat sat unknown timeout trivial error
+	Solver    string
+	Secs      float64
+	Output    string
+	Cover     bool
 	AbsPrefix bool // discharge with the prefix order abstracted (generated code)
 	// language lemma (decided by the reglang back end)
 	LangLeft, LangRight *Re
